@@ -551,9 +551,13 @@ def run(ctx):
             tid += 1
             traces.append(star_trace(tid, sampled_tableau_rows(ctx.rng, n, ctx.rng.randint(4, 30)), vias,
                                      kinds=None if k < cnt_all else meas_kinds))
+            if len(traces) >= 9000:        # judged in portions: the recorded traces of a thorough run do not fit comfortably
+                ctx.judge("Trace_Tableau", traces, label="G: every API action from every enumerated tableau")
+                traces.clear()
     ctx.extra["enumerated_tableaux"] = {"N1": len(tabs1), "N2": len(tabs2), "N2_replayed": len(list(pick))}
     ctx.extra["actions_per_tableau"] = {"N1": len(all_actions(1)), "N2": len(all_actions(2))}
     ctx.judge("Trace_Tableau", traces, label="G: every API action from every enumerated tableau")
+    traces.clear()          # tens of thousands of recorded traces: not needed once judged
     # J: random walks
     walks = []
     plan = [(n0, 40) for n0 in (1, 2, 3, 4)] * 6 if ctx.quick else [(n0, 300) for n0 in (1, 2, 3, 4, 5)] * 24
@@ -561,6 +565,7 @@ def run(ctx):
         tid += 1
         walks.append(walk_trace(tid, ctx.rng, n0, steps, max_n=5 if ctx.quick else 6))
     ctx.judge("Trace_Tableau", walks, label="J: random walks over the tableau API")
+    walks.clear()
     mids = []
     for n0 in (9, 10, 11, 9, 10, 12) if ctx.quick else (9, 10, 11, 12) * 12:
         tid += 1
